@@ -238,6 +238,79 @@ example :
     Pred.transformTail (some 14) (some 3) (some 2) (some 8) (PredSpec.predict p rows) = .ok rows.flatten := by
   decide
 
+/-! ### default-valued /DecodeParms entries may be left out (ISO 32000-1 Table 8)
+
+  The defaults are the specification's (`PredSpec.defaultPredictor` … `defaultColumns`); that the
+  `unwrap_or` constants of `FlateDecode::transform` are the same four numbers is what these
+  theorems establish about the model, and what the correspondence run (entries left out by the
+  generators in every combination) establishes about the code. -/
+
+/-- the option glue reads an absent entry as the specification's default -/
+theorem transformTail_spelled (p : PredSpec.Params) (op oc on ob : Option Int) (d : Bytes)
+    (hp : PredSpec.Spelled p.predictor PredSpec.defaultPredictor op)
+    (hc : PredSpec.Spelled p.colors PredSpec.defaultColors oc)
+    (hn : PredSpec.Spelled p.columns PredSpec.defaultColumns on)
+    (hb : PredSpec.Spelled p.bpc PredSpec.defaultBpc ob) :
+    Pred.transformTail op oc on ob d =
+      Pred.transformTail (some (p.predictor : Int)) (some (p.colors : Int)) (some (p.columns : Int))
+        (some (p.bpc : Int)) d := by
+  unfold Pred.transformTail
+  rcases hp with rfl | ⟨rfl, hp⟩ <;> rcases hc with rfl | ⟨rfl, hc⟩ <;>
+    rcases hn with rfl | ⟨rfl, hn⟩ <;> rcases hb with rfl | ⟨rfl, hb⟩ <;>
+    simp_all [PredSpec.defaultPredictor, PredSpec.defaultColors, PredSpec.defaultColumns, PredSpec.defaultBpc]
+
+/-- **predictor_roundtrip_omitted.**  `predictor_roundtrip` for every legal spelling of the
+    parameter dictionary: each of /Predictor, /Colors, /Columns, /BitsPerComponent written out, or
+    left out when its value is the default of ISO 32000-1 Table 8 (1, 1, 1, 8) — in particular a
+    single-column image (`columns = 1`) under any of the six predictors with /Columns absent. -/
+theorem predictor_roundtrip_omitted (p : PredSpec.Params) (rows : List Bytes) (op oc on ob : Option Int)
+    (hacc : p.accepted)
+    (hcols : p.columns < 18446744073709551616)
+    (hfit1 : p.colors * p.bpc < 18446744073709551616)
+    (hfit2 : p.columns * p.colors * p.bpc < 18446744073709551616)
+    (hrows : ∀ r ∈ rows, r.length = PredSpec.rowBytes p.columns p.colors p.bpc)
+    (hne : p.predictor = 2 ∨ rows ≠ [])
+    (hp : PredSpec.Spelled p.predictor PredSpec.defaultPredictor op)
+    (hc : PredSpec.Spelled p.colors PredSpec.defaultColors oc)
+    (hn : PredSpec.Spelled p.columns PredSpec.defaultColumns on)
+    (hb : PredSpec.Spelled p.bpc PredSpec.defaultBpc ob) :
+    Pred.transformTail op oc on ob (PredSpec.predict p rows) = .ok rows.flatten := by
+  rw [transformTail_spelled p op oc on ob _ hp hc hn hb]
+  exact predictor_roundtrip p rows hacc hcols hfit1 hfit2 hrows hne
+
+/-- the generators' writer (`PredSpec.Params.entries`, any omission mask) produces legal spellings,
+    and the dictionary it writes denotes `p` again -/
+theorem entries_spelled (p : PredSpec.Params) (mask : Nat) :
+    PredSpec.Spelled p.predictor PredSpec.defaultPredictor ((p.entries mask).1.map Int.ofNat) ∧
+    PredSpec.Spelled p.colors PredSpec.defaultColors ((p.entries mask).2.1.map Int.ofNat) ∧
+    PredSpec.Spelled p.columns PredSpec.defaultColumns ((p.entries mask).2.2.1.map Int.ofNat) ∧
+    PredSpec.Spelled p.bpc PredSpec.defaultBpc ((p.entries mask).2.2.2.map Int.ofNat) ∧
+    PredSpec.Params.ofEntries (p.entries mask).1 (p.entries mask).2.1 (p.entries mask).2.2.1
+      (p.entries mask).2.2.2 = p := by
+  have key : ∀ bit v dflt, PredSpec.Spelled v dflt ((PredSpec.spellEntry mask bit v dflt).map Int.ofNat) ∧
+      (PredSpec.spellEntry mask bit v dflt).getD dflt = v := by
+    intro bit v dflt
+    unfold PredSpec.spellEntry PredSpec.Spelled
+    split
+    · rename_i h; exact ⟨Or.inr ⟨rfl, h.2⟩, h.2.symm⟩
+    · exact ⟨Or.inl rfl, rfl⟩
+  unfold PredSpec.Params.entries PredSpec.Params.ofEntries
+  refine ⟨(key 0 _ _).1, (key 1 _ _).1, (key 2 _ _).1, (key 3 _ _).1, ?_⟩
+  cases p
+  simp only [(key 0 _ _).2, (key 1 _ _).2, (key 2 _ _).2, (key 3 _ _).2]
+
+/-- A single-column Paeth image, three colour components, 8 bits: /Columns and /BitsPerComponent are
+    left out (mask 15 leaves out every default-valued entry), the decoder still returns the rows;
+    with `columns = 2` in place of the default the same data is rejected, so the default is
+    observable on this input. -/
+example :
+    let p : PredSpec.Params := ⟨14, 3, 1, 8⟩
+    let rows : List Bytes := [[10, 20, 30], [200, 1, 255]]
+    p.accepted ∧ p.entries 15 = (some 14, some 3, none, none) ∧
+    Pred.transformTail (some 14) (some 3) none none (PredSpec.predict p rows) = .ok rows.flatten ∧
+    Pred.transformTail (some 14) (some 3) (some 2) none (PredSpec.predict p rows) = .err .transform := by
+  decide
+
 /-- The one shape excluded above: with a PNG predictor, an empty data stream (no rows) is rejected
     by the explicit size check of the code (`row_length > decoded.len()`), with an error. -/
 theorem png_no_rows_is_error (predictor colors columns bpc : Nat) (h : 10 ≤ predictor ∧ predictor ≤ 15) :
